@@ -177,6 +177,8 @@ fn gen_sampling_mesh(rng: &mut Rng, max_faces: usize) -> (String, M) {
 fn gen_points(rng: &mut Rng, tier: Tier) -> Sc {
     let dim = if rng.chance(0.5) { 2 } else { 3 };
     let max_n = if tier == Tier::Quick { 1500 } else { 12000 };
+    // deep trees matter for tied data (whole groups of copies sitting on several split planes)
+    let max_n_tied = 12000;
     let n = match rng.below(4) {
         0 => 1 + rng.below(12),
         1 => 1 + rng.below(200),
@@ -224,7 +226,10 @@ fn gen_points(rng: &mut Rng, tier: Tier) -> Sc {
         }
         3 => {
             label = "duplicated";
-            let base = 1 + rng.below(n.min(60));
+            let n = if rng.chance(0.5) { 1 + rng.below(max_n_tied) } else { n };
+            // few locations with many copies each (leaves far beyond one chunk, whole groups tied
+            // at one distance), or many locations with a few copies
+            let base = if rng.chance(0.5) { 1 + rng.below(6) } else { 1 + rng.below(n.min(60)) };
             let side = 10.0;
             let b: Vec<[f64; 3]> = (0..base).map(|_| [rng.uniform(0.0, side), rng.uniform(0.0, side), if dim == 3 { rng.uniform(0.0, side) } else { 0.0 }]).collect();
             for _ in 0..n {
